@@ -25,18 +25,41 @@ t4.cooldowns, t2.lancedb.partitions, budgets, flags).  An input is ``{}`` plus a
         Messages are one per line (LF-joined in the ConfigError text, one stdout line each in the CLI); a
         shape that cuts or rewrites messages at any other code point no longer reports the same messages.
 
-quick: k <= 1 (every single deviation incl. False and the DOMAIN members; echo keys with all of ECHO, echo values with the 5 representatives ECHO_REPS).
+  typo  the SAME near-miss text at every dict level: for each key name that is allowed at two or more levels of the
+        tree (enabled, cache, max_entries, mode, ...) one fixed typo of it (last character dropped) as an added key at
+        every level - where the name is allowed the nearest key is the name, elsewhere another key or none
+  mix   dict levels that hold keys of different kinds at once (two deviations in one dict): at every level every pair
+        out of {an allowed key, an unknown string key, the non-string keys 5 / None / ("a","b")}, in both insertion
+        orders (a single special key always sits alone in its dict)
+
+quick: k <= 1 (every single deviation incl. False and the DOMAIN members; echo keys with all of ECHO, echo values with the 5 representatives ECHO_REPS),
+plus every typo and every mix input.
 thorough: additionally every pair of *sibling* deviations (same parent dict, full alphabet + False + DOMAIN members on both sides,
 so a non-default enumeration member meets every value of every sibling knob), every pair of deviations below the same
 top-level section that are not siblings (reduced 8-value alphabet + DOMAIN members), every single deviation x every value of ``version``, echo values with the full
 ECHO alphabet, and every (allowed key + ECHO member) x every sibling node x the reduced alphabet (an echoed message
 next to a second message).
 
+History leg (both tiers).  The validator is a function of its input: what a process validated BEFORE must not change the
+outcome (the CLI is always a fresh process, an embedding application is not, and the two must report the same).  A
+*fresh-process outcome* F(x) is obtained for every input x of the leg in a fork of a fresh interpreter that imported the
+validator and never called it (several inputs share one fork only while the validator modules' reachable state - globals,
+closures, function attributes, memo caches - still equals the state right after import; a new fork is taken as soon as it
+does not).  Explored histories, each in its own such process, every step compared with F:
+  * every history of length 2 over the hand-picked inputs of the CLI subset (one or more per class of outcome; thorough:
+    plus the tie keys), A then B through the same entry point, for each of 5 entry points (incl. A = B: "second call")
+  * every history of length 2 that puts the same typo text at two dict levels (quick: the key names shared by >= 6
+    levels; thorough: all shared key names)
+  * two long histories over ALL single deviations + typo + mix inputs (thorough: + all echo singles): the list forward
+    twice in one process, and the list backward in another (so for any two inputs there is a run in which the one
+    precedes the other and a run in which it does not, and every input is validated a second time)
+
 Oracle, evaluated on every input (each API shape gets its own freshly built input object):
  (a) totality      only ConfigError may escape validate_config / validate_config_verbose; nothing may escape
                    validate_config_api, the compat-kwargs form and the script's main()
  (b) purity        the input is deep-identical afterwards (NaN-aware, same container identities, same key order)
- (c) consistency   same verdict, same messages, same normalised config and same warnings through all shapes;
+ (c) consistency   same verdict, same messages, same normalised config and same warnings through all shapes, and the
+                   same as in a fresh process whatever was validated before (history leg);
                    main(): exit code and stdout lines agree (also with --strict); a fixed subset goes through
                    the real CLI as subprocesses (script module, ``clematis validate -- --config F``,
                    ``clematis validate --json``); their stdout is read as bytes and cut at LF only (no
@@ -53,6 +76,8 @@ Signatures (every violation is minimised by dropping deviations first):
   b:mutates-input:<top-level key of the mutated container | <root>>
   c:<shape>:raises-instead-of-returning     c:disagree:<shape>:<verdict|messages|normalized|warnings|exit-code|first-line>
   c:cli:<form>:<traceback|exit-code|first-line|messages|warnings|normalized|stdout-not-json>
+  c:history:<raises|verdict|messages|normalized|warnings|exit-code|stdout>:<kind of the input whose outcome changed:
+             default | set | root | unknown-key | nearmiss-key | nonstr-key | echo-key>   (witness shrunk to a short history)
   (c: signatures of an input that carries ECHO text end in :echo-<line-boundary|whitespace|format>)
   d:range:<key path or cross-field constraint>:<nan|out-of-range>
   e:engine-raises:<default | key path(s) | nonstr-key@<level> (alone or mixed with string keys of that level)
@@ -142,6 +167,8 @@ class _KeyClass:
     def __getitem__(self, tok):
         if tok.startswith("?e:") or tok.startswith("?en:"):
             return "echo-key"
+        if tok.startswith("?typo:"):
+            return "nearmiss-key"
         return _KEY_CLASS[tok]
 
 
@@ -278,9 +305,37 @@ def tie_sections() -> List[Tuple[str, ...]]:
     return [sec for sec in sorted(TREE) if len(TREE[sec]) >= 2 and _tie_key(sec) is not None]
 
 
+def shared_typos(min_levels: int = 2) -> List[Tuple[str, str]]:
+    """[(key name, typo)] for every key name that is allowed at >= min_levels dict levels of the tree (most widely
+    shared first).  The typo is ONE fixed string at edit distance 1 of the name (last character dropped, else 'x'
+    appended) that is not an allowed key anywhere; placed at different levels the same text has different nearest
+    allowed keys (the name itself where it is allowed, another key or none elsewhere)."""
+    count: Dict[str, int] = {}
+    everywhere = set()
+    for ks in TREE.values():
+        everywhere.update(ks)
+        for k in ks:
+            count[k] = count.get(k, 0) + 1
+    out, seen = [], set()
+    for name in sorted(count, key=lambda k: (-count[k], k)):
+        if count[name] < min_levels:
+            continue
+        for cand in (name[:-1], name + "x"):
+            if cand and cand not in everywhere and cand not in seen:
+                seen.add(cand)
+                out.append((name, cand))
+                break
+    return out
+
+
+_TYPO = dict(shared_typos(2))
+
+
 def _key_obj(section: Tuple[str, ...], token: str):
     if token == "?unknown":
         return "zzz_unknown_key"
+    if token.startswith("?typo:"):   # the same near-miss text wherever it is placed (see shared_typos)
+        return _TYPO[token[6:]]
     if token == "?tie":
         k = _tie_key(section)
         if k is None:
@@ -444,6 +499,29 @@ def echo_singles(deep: bool) -> List[List[dict]]:
     return out
 
 
+def typo_singles() -> List[List[dict]]:
+    """the SAME near-miss text at every dict level: for every key name shared by >= 2 levels its typo, at each level"""
+    return [[dev_key(sec, "?typo:" + name)] for name, _ in shared_typos(2) for sec in sorted(TREE)]
+
+
+MIX_TOKENS = ["?unknown", "#5", "#null", "#tuple"]
+
+
+def mixed_key_inputs() -> List[List[dict]]:
+    """dict levels that hold keys of DIFFERENT kinds at once: at every level every pair out of {an allowed key (value 1),
+    an unknown string key, the non-string keys 5 / None / ("a","b")}, in both insertion orders.  A single special key
+    always sits alone in its dict (the base input is {}), so nothing that relates two keys of one dict to each other
+    (ordering, comparing, merging, de-duplicating them) ever meets keys of two types without these."""
+    out: List[List[dict]] = []
+    for sec in sorted(TREE):
+        kids = [dev_set(sec + (TREE[sec][0],), "1")] + [dev_key(sec, t) for t in MIX_TOKENS]
+        for a, b in itertools.combinations(kids, 2):
+            if compatible(a, b):
+                out.append([a, b])
+                out.append([b, a])
+    return out
+
+
 def _devs_of_node(p, values):
     return [dev_set(p, v) for v in values]
 
@@ -496,6 +574,8 @@ def expand_group(item) -> List[List[dict]]:
             for db in devs(b):
                 if compatible(da, db):
                     out.append([da, db])
+                    if da["op"] == "key" or db["op"] == "key":
+                        out.append([db, da])  # insertion order of a mixed-key level (see mixed_key_inputs)
     elif kind == "sec":
         for va in VALUES_REDUCED + DOMAIN.get(tuple(a), []):
             for vb in VALUES_REDUCED + DOMAIN.get(tuple(b), []):
@@ -1451,9 +1531,9 @@ def _yaml():
         return None
 
 
-def cli_subset() -> List[List[dict]]:
-    """a fixed list of ~60 single-deviation inputs covering every class of outcome"""
-    fixed = [
+def cli_fixed() -> List[List[dict]]:
+    """hand-picked single-deviation inputs, one or more per class of outcome (also the base alphabet of the history leg)"""
+    return [
         [],
         [dev_set(("t2", "backend"), "str-x")],                  # message with braces
         [dev_set(("t4", "cache", "namespaces"), "list-empty")],  # accepted without warnings
@@ -1475,6 +1555,11 @@ def cli_subset() -> List[List[dict]]:
         [dev_key((), "?unknown")], [dev_key(("t2",), "?near")], [dev_key(("graph", "merge"), "?unknown")],
         [dev_root("list-1")], [dev_root("str-x")], [dev_root("0")],
     ]
+
+
+def cli_subset() -> List[List[dict]]:
+    """a fixed list of ~60 single-deviation inputs covering every class of outcome"""
+    fixed = cli_fixed()
     allsingles = [d for d in singles() if d and d[0]["op"] == "set"]
     stride = max(1, len(allsingles) // 36)
     out = list(fixed) + [[dev_key(sec, "?tie")] for sec in tie_sections()]
@@ -1672,6 +1757,344 @@ def _cli_worker(chunk, st: Stats, scratch):
 
 
 # ------------------------------------------------------------------------------------------------
+# history leg: the validator is a function of its input, so the outcome of an input must not depend on which inputs
+# THIS PROCESS validated before (the CLI is always a fresh process, an embedding application is not)
+# ------------------------------------------------------------------------------------------------
+_VERIF_DIR = os.path.dirname(os.path.dirname(os.path.abspath(__file__)))
+HIST_SHAPE = "validate_config_verbose"   # returns everything a caller can observe: verdict, messages, normalised config, warnings
+HIST_SHAPES = ["validate_config", "validate_config_api", "validate_config_verbose", "validate_config(strict=,verbose=)", "script.main"]
+
+
+def _step_outcome(shape, devs) -> dict:
+    o = run_shape(shape, build(devs))
+    x = None
+    if o.escaped is not None and not isinstance(o.escaped, ConfigError):
+        x = type(o.escaped).__name__
+    return {"v": o.verdict, "e": o.errs, "n": (norm_hash(o.norm) if o.norm is not None else None), "w": o.warnings, "x": x,
+            "rc": o.rc, "so": o.stdout}
+
+
+def _state_fp():
+    """the state the validator's modules keep between calls, as far as it is reachable from their globals: containers,
+    function closures / defaults / attributes, memo caches of functools wrappers, class and instance attributes
+    (container reprs are deep; identity-based reprs are stable inside one process and its forks)"""
+    out = []
+    for mname in sorted(sys.modules):
+        if not (mname == "configs" or mname.startswith("configs.") or mname == "clematis" or mname.startswith("clematis.")):
+            continue
+        mod = sys.modules[mname]
+        for name, val in sorted(getattr(mod, "__dict__", {}).items()):
+            if name.startswith("__") or isinstance(val, types.ModuleType):
+                continue
+            try:
+                if isinstance(val, (dict, list, set, frozenset, tuple, bytearray)):
+                    out.append((mname, name, repr(val)))
+                elif isinstance(val, types.FunctionType):
+                    if getattr(val, "__module__", None) != mname:
+                        continue
+                    cells = tuple(repr(c.cell_contents) for c in (val.__closure__ or ())
+                                  if isinstance(getattr(c, "cell_contents", None), (dict, list, set, bytearray)))
+                    if cells or val.__dict__ or val.__defaults__ or val.__kwdefaults__:
+                        out.append((mname, name, cells, repr(val.__dict__), repr(val.__defaults__), repr(val.__kwdefaults__)))
+                elif hasattr(val, "cache_info") and callable(getattr(val, "cache_info")):
+                    out.append((mname, name, repr(val.cache_info())))
+                elif isinstance(val, type):
+                    if getattr(val, "__module__", None) == mname:
+                        out.append((mname, name, repr(sorted((k, repr(v)) for k, v in vars(val).items()
+                                                             if not k.startswith("__") and not callable(v)
+                                                             and not isinstance(v, (staticmethod, classmethod, property))))))
+                elif hasattr(val, "__dict__") and not callable(val):
+                    out.append((mname, name, repr(vars(val))))
+            except Exception:  # noqa  (an unprintable object: not comparable, treated as unchanged)
+                continue
+    return out
+
+
+def _zygote_child(hists, fp0, wfd):
+    try:
+        res = []
+        for idx, steps in enumerate(hists):
+            if idx > 0 and _state_fp() != fp0:
+                break  # this process is no longer in its initial state: the next history needs a new fork
+            res.append([_step_outcome(sh, devs) for sh, devs in steps])
+        data = json.dumps({"ok": res}).encode("utf-8", "surrogatepass")
+    except BaseException as e:  # noqa
+        data = json.dumps({"harness": "%s: %s" % (type(e).__name__, str(e)[:300])}).encode()
+    off = 0
+    while off < len(data):
+        off += os.write(wfd, data[off:off + 65536])
+
+
+def _zygote_main():
+    """runs in a FRESH interpreter that has imported the validator but never called it.  Per request line (a JSON list of
+    histories, each a list of [shape, devs] steps) it forks; the child executes the histories one after the other AS LONG
+    AS its validator-module state (_state_fp) still equals the state right after import, and a new child is forked for
+    the rest as soon as it does not.  One JSON line of outcomes answers each request."""
+    out_fd = os.dup(1)
+    dn = os.open(os.devnull, os.O_WRONLY)
+    os.dup2(dn, 1)  # nothing the validator prints may reach the protocol channel
+    inp = sys.stdin.buffer
+    fp0 = _state_fp()
+    while True:
+        line = inp.readline()
+        if not line:
+            break
+        hists = json.loads(line)
+        results, forks, err = [], 0, None
+        while len(results) < len(hists) and err is None:
+            r, w = os.pipe()
+            pid = os.fork()
+            if pid == 0:
+                code = 0
+                try:
+                    os.close(r)
+                    _zygote_child(hists[len(results):], fp0, w)
+                except BaseException:  # noqa
+                    code = 3
+                os._exit(code)
+            os.close(w)
+            forks += 1
+            buf = []
+            while True:
+                c = os.read(r, 1 << 20)
+                if not c:
+                    break
+                buf.append(c)
+            os.close(r)
+            _, status = os.waitpid(pid, 0)
+            try:
+                ans = json.loads(b"".join(buf))
+            except Exception:
+                ans = {"harness": "history child ended with status %d and no answer" % status}
+            if "ok" not in ans or not ans["ok"]:
+                err = ans.get("harness", "history child made no progress")
+            else:
+                results.extend(ans["ok"])
+        data = (json.dumps({"harness": err} if err else {"ok": results, "forks": forks}) + "\n").encode("utf-8", "surrogatepass")
+        off = 0
+        while off < len(data):
+            off += os.write(out_fd, data[off:off + 65536])
+
+
+class Zygote:
+    """handle on one fresh interpreter; run_many(histories) executes each history in (a fork of) its pristine state"""
+
+    def __init__(self):
+        env = dict(os.environ)
+        env["PYTHONPATH"] = REPO + os.pathsep + _VERIF_DIR
+        env.setdefault("PYTHONHASHSEED", "0")
+        self.forks = 0
+        self.p = subprocess.Popen([sys.executable, "-c", "import props.c14_validator as M; M._zygote_main()"],
+                                  stdin=subprocess.PIPE, stdout=subprocess.PIPE, env=env, cwd=_VERIF_DIR)
+
+    def run_many(self, hists) -> List[List[dict]]:
+        if not hists:
+            return []
+        try:
+            self.p.stdin.write(json.dumps(hists).encode("utf-8") + b"\n")
+            self.p.stdin.flush()
+            line = self.p.stdout.readline()
+        except Exception as e:  # noqa
+            raise HarnessError("history process: %s" % e)
+        if not line:
+            raise HarnessError("history process ended (exit %s)" % self.p.poll())
+        r = json.loads(line)
+        if "ok" not in r:
+            raise HarnessError("history process: %s" % r.get("harness"))
+        self.forks += r.get("forks", 0)
+        return r["ok"]
+
+    def run(self, steps) -> List[dict]:
+        return self.run_many([steps])[0]
+
+    def take_forks(self) -> int:
+        n, self.forks = self.forks, 0
+        return n
+
+    def close(self):
+        try:
+            self.p.stdin.close()
+            self.p.wait(timeout=30)
+        except Exception:
+            self.p.kill()
+            self.p.wait()
+
+
+_ZYG: Dict[int, Zygote] = {}
+
+
+def zygote() -> Zygote:
+    """one fresh interpreter per worker process (it ends by itself when the worker's end of its stdin closes)"""
+    z = _ZYG.get(os.getpid())
+    if z is None or z.p.poll() is not None:
+        z = _ZYG[os.getpid()] = Zygote()
+    return z
+
+
+def _hkey(shape, devs) -> str:
+    return json.dumps([shape, devs], sort_keys=True)
+
+
+def _hist_diff(got: dict, fresh: dict) -> Optional[str]:
+    """the first observable aspect in which the outcome inside a history differs from the fresh-process outcome"""
+    for aspect, k in (("raises", "x"), ("verdict", "v"), ("messages", "e"), ("normalized", "n"), ("warnings", "w"),
+                      ("exit-code", "rc"), ("stdout", "so")):
+        if got.get(k) != fresh.get(k):
+            return aspect
+    return None
+
+
+def _coarse(devs) -> str:
+    if not devs:
+        return "default"
+    return "+".join(sorted(set(KEY_CLASS[d["k"]] if d["op"] == "key" else d["op"] for d in devs)))
+
+
+def _hist_show(o: dict) -> str:
+    if o.get("x"):
+        return "raises " + o["x"]
+    if o.get("rc") is not None:
+        return "exit %s, stdout %s" % (o["rc"], _short(o.get("so"), 120))
+    return "%s %s%s" % (o.get("v"), _short(o.get("e"), 140) if o.get("v") == "reject" else "norm#%s" % o.get("n"),
+                        (" warnings %s" % _short(o.get("w"), 80)) if o.get("w") else "")
+
+
+def history_list(deep: bool) -> List[List[dict]]:
+    """the inputs of the two long histories"""
+    return singles() + typo_singles() + mixed_key_inputs() + (echo_singles(True) if deep else [])
+
+
+def history_items(deep: bool):
+    """work items of the history leg: ('pair', shape, A, B) and ('chain', name)"""
+    items: List[Any] = [("chain", "forward-twice"), ("chain", "reverse")]
+    # every history of length 2 over the hand-picked inputs, through each entry point
+    base = cli_fixed() + ([[dev_key(sec, "?tie")] for sec in tie_sections()] if deep else [])
+    for sh in HIST_SHAPES:
+        for a in base:
+            for b in base:
+                items.append(("pair", sh, a, b))
+    # every history of length 2 that puts the same near-miss text at two dict levels
+    for name, _ in shared_typos(2 if deep else 6):
+        for sa in sorted(TREE):
+            for sb in sorted(TREE):
+                items.append(("pair", HIST_SHAPE, [dev_key(sa, "?typo:" + name)], [dev_key(sb, "?typo:" + name)]))
+    return items
+
+
+def history_fresh_needed(deep: bool) -> List[Tuple[str, List[dict]]]:
+    seen, out = set(), []
+    for devs in history_list(deep):
+        k = _hkey(HIST_SHAPE, devs)
+        if k not in seen:
+            seen.add(k)
+            out.append((HIST_SHAPE, devs))
+    for it in history_items(deep):
+        if it[0] == "pair":
+            for devs in (it[2], it[3]):
+                k = _hkey(it[1], devs)
+                if k not in seen:
+                    seen.add(k)
+                    out.append((it[1], devs))
+    return out
+
+
+FRESH: Dict[str, dict] = {}   # filled by run() before the history workers fork
+
+
+def _fresh_worker(chunk, st: Stats, outdir):
+    z = zygote()
+    res = z.run_many([[[sh, devs]] for sh, devs in chunk])
+    with open(os.path.join(outdir, "fresh-%d-%d.jsonl" % (os.getpid(), h64(_hkey(*chunk[0])) % 10 ** 9)), "w", encoding="utf-8") as f:
+        for (sh, devs), r in zip(chunk, res):
+            st.add("transitions")
+            f.write(json.dumps({"k": _hkey(sh, devs), "o": r[0]}) + "\n")
+    st.add("history_forks", z.take_forks())
+
+
+def _hist_reduce(z: Zygote, prefix, last, fresh_last, aspect):
+    """shrink the history before `last` while its outcome still differs from the fresh one in the same aspect"""
+    cur = list(prefix)
+    while len(cur) > 1:
+        half = len(cur) // 2
+        for cand in (cur[half:], cur[:half]):
+            if _hist_diff(z.run(cand + [last])[-1], fresh_last) == aspect:
+                cur = cand
+                break
+        else:
+            break
+    return cur
+
+
+def _hist_report(st: Stats, z: Zygote, steps, i, got, fresh, aspect, reported):
+    sh, devs = steps[i]
+    sig = "c:history:%s:%s" % (aspect, _coarse(devs))
+    st.add("history_differences")
+    if sig in reported:
+        return
+    reported.add(sig)
+    pre = _hist_reduce(z, steps[:i], steps[i], fresh, aspect)
+    hist = pre + [steps[i]]
+    got = z.run(hist)[-1]
+    what = ("%s on input %s answers {%s} in a fresh process but {%s} after this process validated %s" % (
+        sh, _describe(devs), _hist_show(fresh), _hist_show(got),
+        "; ".join(_describe(d) for _, d in pre[:3]) + (" ... (%d inputs)" % len(pre) if len(pre) > 3 else "")))
+    st.violation(sig, what, {"kind": "history", "steps": hist})
+
+
+def _history_worker(chunk, st: Stats, deep):
+    z = zygote()
+    reported = set()
+    hists = []
+    for it in chunk:
+        if it[0] == "pair":
+            hists.append([[it[1], it[2]], [it[1], it[3]]])
+        else:
+            L = [[HIST_SHAPE, d] for d in history_list(deep)]
+            hists.append((L + L) if it[1] == "forward-twice" else list(reversed(L)))
+    results = z.run_many(hists)
+    for it, steps, res in zip(chunk, hists, results):
+        st.add("transitions", len(steps))
+        st.add("histories")
+        st.distinct("states", "H:" + (json.dumps(steps, sort_keys=True) if it[0] == "pair" else it[1]))
+        same = True
+        for i, (sh, devs) in enumerate(steps):
+            fresh = FRESH.get(_hkey(sh, devs))
+            if fresh is None:
+                raise HarnessError("no fresh-process outcome for %s" % _hkey(sh, devs))
+            st.add("validated")
+            aspect = _hist_diff(res[i], fresh)
+            if aspect is not None:
+                same = False
+                _hist_report(st, z, steps, i, res[i], fresh, aspect, reported)
+        st.add("nontrivial", 1 if any(d for _, d in steps) else 0)
+        st.distinct("outcomes", "history:" + ("same" if same else "differs"))
+    st.add("history_forks", z.take_forks())
+
+
+def history_leg(run: Run):
+    deep = run.thorough
+    need = history_fresh_needed(deep)
+    outdir = os.path.join(run.scratch, "fresh")
+    os.makedirs(outdir, exist_ok=True)
+    run.pmap(_fresh_worker, need, extra=(outdir,), chunks=32)
+    FRESH.clear()
+    for fn in sorted(os.listdir(outdir)):
+        with open(os.path.join(outdir, fn), "r", encoding="utf-8") as f:
+            for line in f:
+                rec = json.loads(line)
+                FRESH[rec["k"]] = rec["o"]
+    shutil.rmtree(outdir, ignore_errors=True)
+    if len(FRESH) != len(need):
+        raise HarnessError("fresh-process outcomes: %d of %d" % (len(FRESH), len(need)))
+    items = history_items(deep)
+    run.notes["history_fresh_inputs"] = len(need)
+    run.notes["history_chain_length"] = len(history_list(deep))
+    run.notes["history_pairs"] = sum(1 for it in items if it[0] == "pair")
+    run.notes["history_shared_typos"] = ["%s->%s" % nt for nt in shared_typos(2 if deep else 6)]
+    run.pmap(_history_worker, items, extra=(deep,), chunks=48)
+
+
+# ------------------------------------------------------------------------------------------------
 # run / replay
 # ------------------------------------------------------------------------------------------------
 def _collect_accepted(accdir) -> List[List[dict]]:
@@ -1698,10 +2121,16 @@ def run(run: Run) -> None:
                 "member of the text-layer alphabet ECHO = 11 Unicode line boundaries, 3 further whitespace cut points, 4 "
                 "format/escape metacharacters (keys: all 18 members; values: 5 representatives quick, all 18 thorough; "
                 "thorough also (allowed key + member) x sibling node x 8 values); "
-                "every input goes through 4 API shapes + script main() (+ --strict); non-trivial = a deviating input that is "
+                "plus, at every dict level, the same near-miss text (one typo per key name shared by >= 2 levels: %d names) and every "
+                "pair out of {allowed key, unknown string key, 5, None, ('a','b')} in one dict in both insertion orders; "
+                "every input goes through 4 API shapes + script main() (+ --strict); history leg: each step of each explored "
+                "history (all length-2 histories over the hand-picked CLI-subset inputs per entry point; all length-2 histories "
+                "of one typo text at two dict levels - quick: names shared by >= 6 levels, thorough: all; the whole list of "
+                "single/typo/mix inputs forward twice and backward) must equal the outcome of the same input in a fresh "
+                "process; non-trivial = a deviating input that is "
                 "rejected, or accepted with a normalised config different from the default one; every distinct accepted "
                 "normalised config runs 2 real turns on each of the worlds W0/W1/W2 (quick tier: of the accepted configs that carry an "
-                "ECHO member only those with CR, '{' or '%%s'; thorough: all)") % (len(DOMAIN), sum(len(v) for v in DOMAIN.values()))
+                "ECHO member only those with CR, '{' or '%%s'; thorough: all)") % (len(DOMAIN), sum(len(v) for v in DOMAIN.values()), len(shared_typos(2)))
     run.assume("only JSON/YAML-shaped inputs (dict/list/scalars, tuple as the only non-YAML key type); objects with __dict__ are not enumerated")
     run.assume("in-process script main() reads the input through a seam on its _load_config (no file); the real file/YAML path is covered by the CLI subprocess subset only")
     run.assume("clause (d) checks the constraints for which the validator documents an error message; out-of-range values that are documented as warnings only (t2.quality.fusion.alpha_semantic) and keys without any documented constraint (t2.owner_scope, surface_method, budgets.*, flags.*, t2.quality.lexical.bm25.{k1,b}) are not range-checked")
@@ -1723,6 +2152,14 @@ def run(run: Run) -> None:
                "translation; the ECHO members reach the real CLI in 4 multi-key inputs only (all other echo inputs go through "
                "the in-process main())")
 
+    run.assume("history leg: histories are sequences of validator calls in one process (no engine turns, no threads in between); "
+               "a 'fresh process' is a fork of a new interpreter that imported configs.validate / clematis.scripts.validate and "
+               "never called them; consecutive histories share one fork only while the reachable state of the loaded "
+               "configs.* / clematis.* modules (globals, closures, function attributes, functools caches, class attributes) is "
+               "unchanged since import - state kept anywhere else would make two histories run back to back (a longer "
+               "history), never a false report, since every report is a difference between two real outcomes of one input")
+    run.assume("history leg compares verdict, messages, digest of the normalised config, warnings (and exit code / stdout of "
+               "main()); beyond length 2 only the two long histories are explored, not all orders")
     accdir = os.path.join(run.scratch, "acc")
     os.makedirs(accdir, exist_ok=True)
 
@@ -1761,7 +2198,10 @@ def run(run: Run) -> None:
     run.notes["singles"] = len(S)
     SE = echo_singles(run.thorough)
     run.notes["echo_singles"] = len(SE)
-    S = S + SE
+    ST, SM = typo_singles(), mixed_key_inputs()
+    run.notes["typo_singles"] = len(ST)
+    run.notes["mixed_key_inputs"] = len(SM)
+    S = S + SE + ST + SM
     run.pmap(_validate_worker, S, extra=("devs", accdir, default_norm_c))
     _ph("k1_validated")
     acc1 = _engine_echo_domain(run, _engine_domain(run, _collect_accepted(accdir)))
@@ -1776,6 +2216,9 @@ def run(run: Run) -> None:
     run.pmap(_cli_worker, C, extra=(run.scratch,), chunks=min(len(C), 32))
 
     _ph("cli")
+    # ---- histories (fresh process vs. a process that validated other inputs before)
+    history_leg(run)
+    _ph("history")
     # ---- k = 2 (thorough)
     if run.thorough:
         G = pair_groups()
@@ -1843,7 +2286,26 @@ def _norm_hash(devs):
         return None
 
 
+def _replay_history(case) -> List[Tuple[str, str]]:
+    steps = case["steps"]
+    z = Zygote()
+    try:
+        sh, devs = steps[-1]
+        fresh = z.run([steps[-1]])[0]
+        got = z.run(steps)[-1]
+    finally:
+        z.close()
+    aspect = _hist_diff(got, fresh)
+    if aspect is None:
+        return []
+    return [("c:history:%s:%s" % (aspect, _coarse(devs)),
+             "%s on input %s answers {%s} in a fresh process but {%s} after this process validated %s" % (
+                 sh, _describe(devs), _hist_show(fresh), _hist_show(got), "; ".join(_describe(d) for _, d in steps[:-1][:3])))]
+
+
 def replay(case) -> List[Tuple[str, str]]:
+    if case.get("kind") == "history":
+        return _replay_history(case)
     devs = case.get("devs", [])
     out: List[Tuple[str, str]] = []
     viols, info = check_input(devs)
